@@ -69,7 +69,7 @@ struct SIMDVector<std::complex<T>, simd_abi::scalar> {
         }
     }
 
-    FASTOR_INLINE T operator[](FASTOR_INDEX) const {return scalar_value_type(value_r,value_i);}
+    FASTOR_INLINE scalar_value_type operator[](FASTOR_INDEX) const {return scalar_value_type(value_r,value_i);}
 
     FASTOR_INLINE SIMDVector<T,simd_abi::scalar> real() const {
         return value_r;
